@@ -411,6 +411,70 @@ fn run_case(case: &Value) -> Value {
             }
             json!({"any_ok": any_ok, "max_alloc": max_alloc, "input_len": input_len})
         }
+        "codec_chunked_roundtrip" => {
+            // well-formed frames written by Codec::write_message, read back through a reader that hands out at most
+            // `chunks[i % len]` bytes per read() call (a socket / pipe / BufReader refill boundary)
+            use copia::Message;
+            let chunks: Vec<usize> = case["chunks"].as_array().unwrap().iter().map(|c| (c.as_u64().unwrap() as usize).max(1)).collect();
+            let msgs = vec![
+                Message::SignatureRequest { file_id: 1, block_size: 2048 },
+                Message::Ack { file_id: 9, success: true, message: Some("ok".into()) },
+                Message::Error { code: 3, message: "boom".into() },
+                Message::Ping { seq: 7 },
+                Message::Pong { seq: u64::MAX },
+            ];
+            let mut wire = Vec::new();
+            let mut codec = copia::Codec::new();
+            for m in &msgs {
+                codec.write_message(&mut wire, m).unwrap();
+            }
+            struct Chunked<'a> { data: &'a [u8], pos: usize, chunks: &'a [usize], k: usize }
+            impl<'a> std::io::Read for Chunked<'a> {
+                fn read(&mut self, buf: &mut [u8]) -> std::io::Result<usize> {
+                    let n = buf.len().min(self.data.len() - self.pos).min(self.chunks[self.k % self.chunks.len()]);
+                    self.k += 1;
+                    buf[..n].copy_from_slice(&self.data[self.pos..self.pos + n]);
+                    self.pos += n;
+                    Ok(n)
+                }
+            }
+            let mut rd = Chunked { data: &wire, pos: 0, chunks: &chunks, k: 0 };
+            let mut bad = Vec::new();
+            for (i, m) in msgs.iter().enumerate() {
+                match codec.read_message(&mut rd) {
+                    Ok(got) if &got == m => {}
+                    Ok(got) => { bad.push(json!({"frame": i, "got": format!("{got:?}")})); break; }
+                    Err(e) => { bad.push(json!({"frame": i, "error": e.to_string()})); break; }
+                }
+            }
+            json!({"equal": bad.is_empty(), "mismatches": bad})
+        }
+        "async_signature_chunked" => {
+            // AsyncCopiaSync::signature over an AsyncRead that returns short reads, against Signature::generate
+            let data = bytes_of(&case["data"]);
+            let bs = case["bs"].as_u64().unwrap() as usize;
+            let chunks: Vec<usize> = case["chunks"].as_array().unwrap().iter().map(|c| (c.as_u64().unwrap() as usize).max(1)).collect();
+            struct AChunked { data: Vec<u8>, pos: usize, chunks: Vec<usize>, k: usize }
+            impl tokio::io::AsyncRead for AChunked {
+                fn poll_read(mut self: std::pin::Pin<&mut Self>, _cx: &mut std::task::Context<'_>, buf: &mut tokio::io::ReadBuf<'_>) -> std::task::Poll<std::io::Result<()>> {
+                    let me = &mut *self;
+                    let n = buf.remaining().min(me.data.len() - me.pos).min(me.chunks[me.k % me.chunks.len()]);
+                    me.k += 1;
+                    buf.put_slice(&me.data[me.pos..me.pos + n]);
+                    me.pos += n;
+                    std::task::Poll::Ready(Ok(()))
+                }
+            }
+            let want = Signature::generate(&mut Cursor::new(&data), bs).map_err(|e| e.to_string());
+            let got = block_on(AsyncCopiaSync::with_block_size(bs).signature(AChunked { data: data.clone(), pos: 0, chunks, k: 0 })).map_err(|e| e.to_string());
+            let equal = match (&want, &got) {
+                (Ok(w), Ok(g)) => w.block_size == g.block_size && w.file_size == g.file_size && w.blocks.len() == g.blocks.len()
+                    && w.blocks.iter().zip(g.blocks.iter()).all(|(x, y)| x.index == y.index && x.weak_hash == y.weak_hash && x.strong_hash.as_bytes() == y.strong_hash.as_bytes()),
+                (Err(_), Err(_)) => true,
+                _ => false,
+            };
+            json!({"equal": equal, "sync_blocks": want.as_ref().map(|w| w.blocks.len()).ok(), "async_blocks": got.as_ref().map(|g| g.blocks.len()).ok()})
+        }
         "signature_check" => {
             // Signature::generate vs an independent sequential reference (definition digest + the blake3 crate directly)
             let n = case["n"].as_u64().unwrap() as usize;
